@@ -108,4 +108,41 @@ theorem anyAbove_spec (p : Plane) (maxv : Nat) (hc : p.covers = true) (hw : p.cf
   · rintro ⟨x, y, _, h2, h3, h4⟩; exact ⟨x, y, h3, h2, h4⟩
   · rintro ⟨x, y, h1, h2, h3⟩; exact ⟨x, y, by omega, h2, h1, h3⟩
 
+
+theorem alignPow2_ge (x n : Nat) : x ≤ alignPow2 x n := by
+  unfold alignPow2
+  have hp : 0 < 2 ^ n := Nat.pow_pos (by decide)
+  generalize 2 ^ n = P at *
+  have h := Nat.div_add_mod (x + P - 1) P
+  have hm := Nat.mod_lt (x + P - 1) hp
+  have : P * ((x + P - 1) / P) = (x + P - 1) / P * P := Nat.mul_comm _ _
+  omega
+
+theorem planeNew_covers (w h xd yd xp yp tsz : Nat) (data : Array Nat) (hw : 0 < w) (hh : 0 < h)
+    (hs : data.size = (Plane.new w h xd yd xp yp tsz).data.size) :
+    ({ (Plane.new w h xd yd xp yp tsz) with data := data } : Plane).covers = true := by
+  unfold Plane.covers
+  simp only [hs]
+  unfold Plane.new PlaneCfg.new
+  simp only [Array.size_replicate, decide_eq_true_eq]
+  have hst := alignPow2_ge (alignPow2 xp (6 + 1 - tsz) + w + xp) (6 + 1 - tsz)
+  generalize alignPow2 (alignPow2 xp (6 + 1 - tsz) + w + xp) (6 + 1 - tsz) = S at *
+  generalize alignPow2 xp (6 + 1 - tsz) = X at *
+  have hne : ¬ (w = 0 ∨ h = 0) := by omega
+  simp only [hne, if_false]
+  have : S * (yp + h + yp) = (yp + (h - 1)) * S + S + yp * S := by
+    have : yp + h + yp = (yp + (h - 1)) + 1 + yp := by omega
+    rw [this, Nat.mul_add, Nat.mul_add, Nat.mul_one, Nat.mul_comm S, Nat.mul_comm S yp]
+  omega
+
+
+theorem shr_pos (w s : Nat) (hw : 0 < w) (hdiv : w % 2 ^ s = 0) : 0 < w >>> s := by
+  rw [Nat.shiftRight_eq_div_pow]
+  have hp : 0 < 2 ^ s := Nat.pow_pos (by decide)
+  have := Nat.div_add_mod w (2 ^ s)
+  rw [hdiv] at this
+  rcases Nat.eq_zero_or_pos (w / 2 ^ s) with h0 | h0
+  · rw [h0] at this; simp at this; omega
+  · exact h0
+
 end FrameP
